@@ -88,7 +88,7 @@ def build_cli():
         env["CARGO_NET_OFFLINE"] = "true"
         env["CARGO_TARGET_DIR"] = CLI_DIR
         t0 = time.time()
-        p = subprocess.run(["cargo", "build", "--release", "--offline", "-p", "compile", "-p", "tokenize", "-p", "map", "-p", "train", "-p", "dictgen"],
+        p = subprocess.run(["cargo", "build", "--release", "--offline", "-p", "compile", "-p", "tokenize", "-p", "map", "-p", "train", "-p", "dictgen", "-p", "evaluate"],
                            cwd="/repo", env=env, stdout=subprocess.PIPE, stderr=subprocess.STDOUT, text=True)
         if p.returncode != 0:
             log(p.stdout[-3000:])
